@@ -53,6 +53,19 @@ fn main() {
             let n = a.n.unwrap_or(if thorough { 300_000 } else { 20_000 });
             vh::props::c09::run(&mut rep, n, replay_seed);
         }
+        "C13" => {
+            let n = a.n.unwrap_or(if thorough { 200_000 } else { 20_000 });
+            let replay_text = a.replay.clone();
+            vh::props::c13::run(&mut rep, thorough, n, replay_text.as_deref());
+        }
+        "C14" => {
+            let n = a.n.unwrap_or(if thorough { 2_000_000 } else { 100_000 });
+            vh::props::c14::run(&mut rep, thorough, n, a.replay.as_deref());
+        }
+        "smoke" => {
+            smoke();
+            return;
+        }
         other => {
             eprintln!("vh: unknown property {other}");
             std::process::exit(2);
@@ -60,4 +73,33 @@ fn main() {
     }
     let _ = &a.rest;
     std::process::exit(rep.finish(&a.out));
+}
+
+fn smoke() {
+    use vh::tspec::*;
+    let mut rng = vh::rng::Rng::new(7);
+    let mut b = Builder::new();
+    b.sentinel(&mut rng, Mode::Spin, &StackShape::default(), Some(b"spin-one".to_vec()), None);
+    b.sentinel(&mut rng, Mode::Pause, &StackShape::default(), Some(b"pause-one".to_vec()), None);
+    b.sentinel(&mut rng, Mode::Spinner3, &StackShape::default(), None, None);
+    b.thread(vh::spec::ThreadKind::Heartbeat, Some(b"hb".to_vec()));
+    let t = vh::target::Target::spawn(b.spec.clone(), &b.opts).expect("spawn");
+    println!("pid {} tids {:?}", t.pid, t.manifest.tids);
+    let o = vh::dump::DumpOpts::new(t.pid, t.pid);
+    let (out, dest) = vh::dump::dump(&o);
+    match out {
+        vh::dump::Outcome::Ok(img) => {
+            println!("ok {} bytes, dest equal: {}", img.len(), img == dest);
+            let im = vh::image::decode(&img);
+            println!("errors: {:?}", im.errors);
+            for th in im.threads.as_ref().unwrap() {
+                let c = th.ctx.as_ref().unwrap();
+                println!("tid {} rsp {:#x} rip {:#x} stack {:#x}+{}", th.tid, c.rsp(), c.rip, th.stack_start, th.stack_size);
+            }
+            println!("names {:?}", im.names);
+            println!("soft {:?}", im.soft_errors());
+            println!("modules {:?}", im.modules.as_ref().unwrap().iter().map(|m| (m.name.clone(), m.base, m.size)).collect::<Vec<_>>());
+        }
+        other => println!("{other:?}"),
+    }
 }
